@@ -945,6 +945,10 @@ class Node(object):
         if type(newChild) == str:
             newChild = self.ownerDocument.createTextNode(newChild)
         if newChild.nodeType == Node.DOCUMENT_FRAGMENT_NODE:
+            # A negative position is relative to the current end of the
+            # list; it has to be fixed before the list starts to grow
+            if i < 0:
+                i = max(0, len(self) + i)
             for item in newChild:
                 self.insert(i, item, setParent=setParent)
                 i += 1
